@@ -538,9 +538,113 @@ func mkContains(s, needle *Term) *Term {
 	return mkApp("str.contains", SBool, s, needle)
 }
 
+// reLits: the regex is a finite union of literals.
+func reLits(re *Re) ([]string, bool) {
+	switch re.K {
+	case "lit":
+		return []string{re.S}, true
+	case "union":
+		var out []string
+		for _, s := range re.Sub {
+			if s.K != "lit" {
+				return nil, false
+			}
+			out = append(out, s.S)
+		}
+		return out, true
+	}
+	return nil, false
+}
+
 func mkInRe(s *Term, re *Re) *Term {
 	if s.IsConst() {
 		return mkBool(re.MatchBytes(s.S))
+	}
+	if s.Op == "str.++" {
+		if lits, ok := reLits(re); ok {
+			// membership of a concatenation with constant pieces in a finite set of words:
+			// keep only the words compatible with the constant pieces
+			parts := s.Args
+			nonConst := 0
+			for _, p := range parts {
+				if !p.IsConst() {
+					nonConst++
+				}
+			}
+			var keep []string
+			for _, l := range lits {
+				pos := 0
+				ok := true
+				for i, p := range parts {
+					if !p.IsConst() {
+						continue
+					}
+					if i == 0 {
+						if !strings.HasPrefix(l, p.S) {
+							ok = false
+							break
+						}
+						pos = len(p.S)
+						continue
+					}
+					j := strings.Index(l[pos:], p.S)
+					if j < 0 {
+						ok = false
+						break
+					}
+					pos += j + len(p.S)
+				}
+				if ok && parts[len(parts)-1].IsConst() && !strings.HasSuffix(l, parts[len(parts)-1].S) {
+					ok = false
+				}
+				if ok {
+					keep = append(keep, l)
+				}
+			}
+			if len(keep) == 0 {
+				return tFalse
+			}
+			if nonConst == 1 {
+				pre, suf := "", ""
+				var x *Term
+				for _, p := range parts {
+					if p.IsConst() {
+						if x == nil {
+							pre += p.S
+						} else {
+							suf += p.S
+						}
+					} else {
+						x = p
+					}
+				}
+				var trimmed []*Re
+				seen := map[string]bool{}
+				for _, l := range keep {
+					if len(l) >= len(pre)+len(suf) && strings.HasPrefix(l, pre) && strings.HasSuffix(l, suf) {
+						m := l[len(pre) : len(l)-len(suf)]
+						if !seen[m] {
+							seen[m] = true
+							trimmed = append(trimmed, reLit(m))
+						}
+					}
+				}
+				if len(trimmed) == 0 {
+					return tFalse
+				}
+				return mkInRe(x, reUnion(trimmed...))
+			}
+			if len(keep) < len(lits) {
+				var ks []*Re
+				for _, l := range keep {
+					ks = append(ks, reLit(l))
+				}
+				re = reUnion(ks...)
+			}
+		}
+	}
+	if lits, ok := reLits(re); ok && len(lits) == 1 {
+		return mkEq(s, mkStr(lits[0]))
 	}
 	return intern(&Term{Op: "str.in_re", Sort: SBool, Args: []*Term{s}, Re: re})
 }
@@ -791,4 +895,61 @@ func (t *Term) collect(vars map[*Term]bool, ufs map[*Term]bool, seen map[*Term]b
 	for _, a := range t.Args {
 		a.collect(vars, ufs, seen)
 	}
+}
+
+// termRange: cheap interval bound of an integer term (nil = unbounded on that side).
+func termRange(t *Term) (lo, hi *big.Int) {
+	big62 := new(big.Int).Lsh(big.NewInt(1), 62)
+	switch t.Op {
+	case "const":
+		return t.I, t.I
+	case "str.len":
+		return big.NewInt(0), big62
+	case "str.to_code":
+		return big.NewInt(-1), big.NewInt(0x2ffff)
+	case "str.to_int":
+		return big.NewInt(-1), nil
+	case "uf":
+		switch t.Name {
+		case "lastindex":
+			return big.NewInt(-1), big62
+		case "utf8size":
+			return big.NewInt(1), big.NewInt(4)
+		case "utf8rune":
+			return big.NewInt(0), big.NewInt(0x10ffff)
+		}
+		return nil, nil
+	case "neg":
+		l, h := termRange(t.Args[0])
+		var nl, nh *big.Int
+		if h != nil {
+			nl = new(big.Int).Neg(h)
+		}
+		if l != nil {
+			nh = new(big.Int).Neg(l)
+		}
+		return nl, nh
+	case "+":
+		lo, hi = big.NewInt(0), big.NewInt(0)
+		for _, a := range t.Args {
+			l, h := termRange(a)
+			if l == nil {
+				lo = nil
+			} else if lo != nil {
+				lo = new(big.Int).Add(lo, l)
+			}
+			if h == nil {
+				hi = nil
+			} else if hi != nil {
+				hi = new(big.Int).Add(hi, h)
+			}
+		}
+		return lo, hi
+	}
+	return nil, nil
+}
+
+func rangeWithin(t *Term, lo, hi *big.Int) bool {
+	l, h := termRange(t)
+	return l != nil && h != nil && l.Cmp(lo) >= 0 && h.Cmp(hi) <= 0
 }
